@@ -135,10 +135,12 @@ func purgeWidthGadgets(ex expr.Expr) (expr.Expr, bool) {
 		return expr.NewLess(c1, c2, et, ef, e.Width()), true
 	case expr.MemLoad:
 		// Address keeps its width independently on width of MemLoad.
+		// There is no context truncating or extending the address to
+		// the load width, so gadgets changing the address width must
+		// not be pruned based on e.Width().
 		addr, changedAddr := purgeWidthGadgetsKeepWidth(e.Addr())
-		addr, prunedAddr := pruneUselessWidthGadgets(addr, e.Width())
 
-		if !(changedAddr || prunedAddr) {
+		if !changedAddr {
 			return ex, false
 		}
 		return expr.NewMemLoad(e.Key(), addr, e.Width()), true
